@@ -82,9 +82,11 @@ def build_n(ncells):
         st = St('c12 importances')
         xs = [-4.0 + 2.0 * i for i in range(ncells + 1)]
         st.surfs = ['%d px %g' % (i + 1, x) for i, x in enumerate(xs)]
-        nvals = [ch.choose('n%d' % i, VALS) for i in range(ncells)]
-        pvals = [ch.choose('p%d' % i, [0, 1, 2]) for i in range(ncells)]
         src = [ch.choose('src%d' % i, SOURCES) for i in range(ncells)]
+        nvals = [ch.choose('n%d' % i, VALS) if src[i] != 'like:' else 0 for i in range(ncells)]
+        # the photon value is a choice point only where it can matter
+        pvals = [ch.choose('p%d' % i, [0, 1, 2]) if ('%(p)' in src[i] or src[i] == 'none') else 0
+                 for i in range(ncells)]
         st.expected = {}
         any_none = False
         use_p_card = ch.choose('imp:p-card', [False, True])
